@@ -471,3 +471,23 @@ func genTrim(r *hutil.Rand) string {
 
 var timeVals = []int64{0, 1, -1, 999, 1000, 1001, -999, -1000, -1001, 1690000000, 9223372036854, 9223372036855, -9223372036854, -9223372036855,
 	9223372036854775807, -9223372036854775808, 9223372036854775806, -9223372036854775807, 18446744073709, 18446744073710, 4611686018427387904, 1 << 32, 123456789}
+
+// the lines of the Examples in coq/Props/C07.v and coq/Props/C15.v, verbatim: part of every run, so that what the
+// examples show of the model is compared with the real parser each time
+var propsExamples = []string{
+	"type=SYSCALL msg=audit(1690000000.123:4242): arch=c000003e syscall=59 success=yes",
+	"type=EOE msg=  audit(1.002:3): ", "type=EOE msg=audit(1.002:3): ", " type=EOE msg=audit(1.002:3): ", "type=EOE  msg=audit(1.002:3): ",
+	"\n", "", "type=EOE msg=audit(1.002:3): x\xc2\xa0",
+	"type=SYSCALL msg=audit(1690000000.007:4294967295): arch=c000003e syscall=59 success=yes exit=0",
+	"12345SYSCALL msg=audit(1.002:3): x", "node=SYSCALL msg=audit(1.002:3): x",
+	"type=A msg= msg=audit(1.002:3): x", "type=msg=audit(1.002:3): x", "type=EOE msg=msg=audit(1.002:3): x",
+	"type=EOE msg=(audit(1.002:3): x", "type=EOE msg=x(1.002:3) audit(4.005:6): y",
+	"type=USER_CMD msg=audit(1.002:3): pid=1 res=success\x1dUID=\"root\"",
+	"type=EOE msg=audit(-5.+07:0003):", "type=EOE msg=audit(1.002:+3):", "type=EOE msg=audit(1_0.002:3):", "type=EOE msg=audit(0x10.002:3):",
+	"type=EOE msg=audit(1.002: 3):", "type=EOE msg=audit(1.002:4294967295):", "type=EOE msg=audit(1.002:4294967296):",
+	"type=EOE msg=audit(9223372036854775807.002:3):", "type=EOE msg=audit(9223372036854775808.002:3):", "type=EOE msg=audit(-9223372036854775808.002:3):",
+	"type=EOE msg=audit(10.7:3):", "type=EOE msg=audit(10.1234:3):", "type=EOE msg=audit(10.-1:3):",
+	"type=syscall msg=audit(1.002:3):", "type=UNKNOWN[1329] msg=audit(1.002:3):", "type=x[7]y msg=audit(1.002:3):",
+	"type=UNKNOWN[65536] msg=audit(1.002:3):", "type=UNKNOWN[+1] msg=audit(1.002:3):", "type=NOPE msg=audit(1.002:3):",
+	"type= msg=audit(1.002:3):", "type=msg=audit(1.002:3):",
+}
